@@ -468,6 +468,29 @@ func init() {
 				c03Sequence(c, calls, D <= fsD)
 			})
 		}
+		// wide fan-out: k distinct children under the root, then child i re-Added (must return the existing node) and
+		// given a grandchild, then one more new child; every k <= K, every i
+		maxK := 16
+		if c.Thorough() {
+			maxK = 40
+		}
+		c.Bound("wide_fanout_children", fmt.Sprint(maxK))
+		for k := 1; k <= maxK && !c.Expired(); k++ {
+			for i := 0; i < k; i++ {
+				if !c.Take() {
+					continue
+				}
+				calls := []addCall{{-1, "r"}}
+				for j := 0; j < k; j++ {
+					calls = append(calls, addCall{0, fmt.Sprintf("c%02d", j)})
+				}
+				calls = append(calls, addCall{0, fmt.Sprintf("c%02d", i)}, addCall{i + 1, "g"}, addCall{0, "tail"}, addCall{0, fmt.Sprintf("c%02d", k-1)})
+				c.StateN(1)
+				c.Nontrivial()
+				c.Inc("wide_fanout_sequences")
+				c03Sequence(c, calls, k <= 6)
+			}
+		}
 		// one hostile name at one call position, D <= 4
 		host := []string{"- x", "é日本", "a b", "#h", "x.b"}
 		for D := 1; D <= 4 && !c.Expired(); D++ {
